@@ -2,7 +2,9 @@
    Backward, continuation-passing construction (DESIGN Appendix A): [lower e k] receives the id of the
    block that follows e (None at the end of a routine) and returns (start, end) where [end] is the
    block PyTeal returns as the fragment's end.  Errors PyTeal raises while lowering are computed by a
-   separate pass [check_expr] that follows PyTeal's traversal order, so the first error matches. *)
+   separate pass [check_expr] that follows PyTeal's traversal order, so the first error matches.
+   List-shaped constructs are lowered by named helpers parameterised by the single-expression
+   lowering function, so that they can be specified once (Proofs/LowerCorrect.v). *)
 From Coq Require Import List Arith NArith String Bool.
 From PV Require Import Base.Bytes AVM.Syntax Src.Expr Comp.Blocks Comp.WideRatio.
 Import ListNotations.
@@ -31,8 +33,7 @@ Record copts : Type := mkOpts {
 Record lctx : Type := mkL {
   l_sub_ret : option ty;            (* Some return_type inside a subroutine *)
   l_brk : option id;                (* loop exit target *)
-  l_cont : option (option id)       (* Some (Some t): continue target; Some None: in a loop position where
-                                       Continue's target is the fragment being built (unsupported) *)
+  l_cont : option id                (* continue target *)
 }.
 
 Definition field_arg (imms : list arg) : option string :=
@@ -98,7 +99,8 @@ Fixpoint check_expr (o : copts) (sub : option ty) (in_loop : bool) (e : expr) {s
       else first_err (map (chk in_loop) ns ++ map (chk in_loop) ds)
   end.
 
-(* Continue in a position where its target is the fragment under construction *)
+(* Continue in a position where its target is the fragment under construction (a loop header):
+   PyTeal points it at the start of the very fragment being built; not modelled *)
 Fixpoint has_bad_continue (pos_bad : bool) (e : expr) {struct e} : bool :=
   match e with
   | EContinue => pos_bad
@@ -117,21 +119,78 @@ Fixpoint has_bad_continue (pos_bad : bool) (e : expr) {struct e} : bool :=
 (* ---- lowering ---- *)
 Definition I (o : opc) (imms : list arg) : instr := mkI o imms.
 
-(* chain fragments right-to-left: each element is lowered against the start of the next *)
-Section LowerList.
-  Variable lower1 : expr -> option id -> graph -> (id * id) * graph.
-  (* returns start of the chain (or k itself when empty) and the end of the LAST element *)
+Definition or_else (a : option id) (b : id) : id := match a with Some x => x | None => b end.
+Definition or_some (a : option id) (b : id) : option id := match a with Some x => Some x | None => Some b end.
+
+Section Helpers.
+  (* the single-expression lowering: expr -> continuation -> graph -> (start, end), graph *)
+  Variable lw : expr -> option id -> graph -> (id * id) * graph.
+
+  (* fragments in sequence, built right-to-left: returns (start of the chain or k when empty,
+     end of the LAST element if any) *)
   Fixpoint lower_chain (es : list expr) (k : option id) (g : graph) : (option id * option id) * graph :=
     match es with
     | [] => ((k, None), g)
     | e :: t =>
         let '((kt, endt), g1) := lower_chain t k g in
-        let '((s, en), g2) := lower1 e kt g1 in
-        ((Some s, match endt with Some x => Some x | None => Some en end), g2)
+        let '((s, en), g2) := lw e kt g1 in
+        ((Some s, or_some endt en), g2)
     end.
-End LowerList.
 
-(* Comment(text) without a child = Seq(CommentExpr line ...): an empty start block, then one block per line *)
+  (* NaryExpr tail: each argument followed by its own op block *)
+  Fixpoint lower_nary_rest (op : opc) (l : list expr) (k : option id) (g : graph) : (option id * option id) * graph :=
+    match l with
+    | [] => ((k, None), g)
+    | a :: t =>
+        let '((kt, endt), g1) := lower_nary_rest op t k g in
+        let '(opb, g2) := add_block g1 (BSimple [I op []] kt) in
+        let '((s, _), g3) := lw a (Some opb) g2 in
+        ((Some s, or_some endt opb), g3)
+    end.
+
+  (* Cond arms: each condition's false edge goes to the next arm's condition, the last to [errb] *)
+  Fixpoint lower_cond_arms (l : list (expr * expr)) (en errb : id) (g : graph) : id * graph :=
+    match l with
+    | [] => (errb, g)
+    | (cnd, pred) :: t =>
+        let '(fls, g1) := lower_cond_arms t en errb g in
+        let '((ps, _), g2) := lw pred (Some en) g1 in
+        let '(br, g3) := add_block g2 (BCond [] (Some ps) (Some fls)) in
+        let '((cs, _), g4) := lw cnd (Some br) g3 in
+        (cs, g4)
+    end.
+
+  (* WideRatio factors 3..n: factor then the 8-op multiply block *)
+  Fixpoint lower_wide_rest (l : list expr) (k : option id) (g : graph) : (option id * option id) * graph :=
+    match l with
+    | [] => ((k, None), g)
+    | f :: t =>
+        let '((kt, endt), g1) := lower_wide_rest t k g in
+        let '(mb, g2) := add_block g1 (BSimple mul_step_ops kt) in
+        let '((s, _), g3) := lw f (Some mb) g2 in
+        ((Some s, or_some endt mb), g3)
+    end.
+
+  (* multiplyFactors *)
+  Definition lower_factors (fs : list expr) (k : option id) (g : graph) : (id * id) * graph :=
+    match fs with
+    | [] => let '(b, g1) := add_block g (BSimple [] k) in ((b, b), g1)
+    | [f0] =>
+        let '((s0, e0), g1) := lw f0 k g in
+        let '(hw, g2) := add_block g1 (BSimple [I1 O_int 0] (Some s0)) in
+        let '(st, g3) := add_block g2 (BSimple [] (Some hw)) in
+        ((st, e0), g3)
+    | f0 :: f1 :: rest =>
+        let '((krest, endrest), g1) := lower_wide_rest rest k g in
+        let '(m2, g2) := add_block g1 (BSimple [I0 O_mulw] krest) in
+        let '((s1, _), g3) := lw f1 (Some m2) g2 in
+        let '((s0, _), g4) := lw f0 (Some s1) g3 in
+        let '(st, g5) := add_block g4 (BSimple [] (Some s0)) in
+        ((st, or_else endrest m2), g5)
+    end.
+End Helpers.
+
+(* Comment(text) without a child = Seq(CommentExpr line ...): one block per line *)
 Fixpoint lower_comment_lines (lines : list string) (k : option id) (g : graph) : option id * graph :=
   match lines with
   | [] => (k, g)
@@ -141,35 +200,70 @@ Fixpoint lower_comment_lines (lines : list string) (k : option id) (g : graph) :
       (Some b, g2)
   end.
 
+(* MultiValue's stack stores: emitted for reversed(outs); built from outs[0] (last in the chain) backwards *)
+Fixpoint lower_stores (outs : list N) (kk : option id) (first : option id) (g : graph) : option id * option id * graph :=
+  match outs with
+  | [] => (kk, first, g)
+  | s :: t =>
+      let '(b, g1) := add_block g (BSimple [I O_store [ASlot s]] kk) in
+      lower_stores t (Some b) (or_some first b) g1
+  end.
+
+Section AssertHelpers.
+  Variable lw : expr -> option id -> graph -> (id * id) * graph.
+  Variable version : N.
+  Variable comment : option (list string).
+
+  (* a single-condition Assert *)
+  Definition lower_assert1 (cnd : expr) (k : option id) (g : graph) : (id * id) * graph :=
+    if N.leb 3 version then
+      let '(opb, g1) := add_block g (BSimple [I O_assert_ []] k) in
+      let '(kc, g2) :=
+        match comment with
+        | Some lines =>
+            let '(ks, g') := lower_comment_lines lines (Some opb) g1 in
+            let '(st, g'') := add_block g' (BSimple [] ks) in (Some st, g'')
+        | None => (Some opb, g1)
+        end in
+      let '((cs, _), g3) := lw cnd kc g2 in
+      ((cs, opb), g3)
+    else
+      let '(en, g1) := add_block g (BSimple [] k) in
+      let '(errb, g2) := add_block g1 (BSimple [I O_err []] None) in
+      let '(br, g3) := add_block g2 (BCond [] (Some en) (Some errb)) in
+      let '((cs, _), g4) := lw cnd (Some br) g3 in
+      ((cs, en), g4).
+
+  (* several conditions: a Seq of single-condition Asserts *)
+  Fixpoint lower_asserts (l : list expr) (k : option id) (g : graph) : (option id * option id) * graph :=
+    match l with
+    | [] => ((k, None), g)
+    | cnd :: t =>
+        let '((kt, endt), g1) := lower_asserts t k g in
+        let '((s, en), g2) := lower_assert1 cnd kt g1 in
+        ((Some s, or_some endt en), g2)
+    end.
+End AssertHelpers.
+
 Fixpoint lower (o : copts) (c : lctx) (e : expr) (k : option id) (g : graph) {struct e} : (id * id) * graph :=
   let lw := lower o c in
   match e with
   | EOp op imms _ args =>
       let '(opb, g1) := add_block g (BSimple [I op imms] k) in
       let '((s, _), g2) := lower_chain lw args (Some opb) g1 in
-      ((match s with Some x => x | None => opb end, opb), g2)
+      ((or_else s opb, opb), g2)
   | ENary op _ args =>
       match args with
       | [] => let '(b, g1) := add_block g (BSimple [] k) in ((b, b), g1)   (* constructor rejects *)
       | a1 :: rest =>
-          (* rest: each arg followed by its own op block *)
-          let '((krest, endrest), g1) :=
-            (fix go (l : list expr) (k : option id) (g : graph) : (option id * option id) * graph :=
-               match l with
-               | [] => ((k, None), g)
-               | a :: t =>
-                   let '((kt, endt), g1) := go t k g in
-                   let '(opb, g2) := add_block g1 (BSimple [I op []] kt) in
-                   let '((s, _), g3) := lw a (Some opb) g2 in
-                   ((Some s, match endt with Some x => Some x | None => Some opb end), g3)
-               end) rest k g in
+          let '((krest, endrest), g1) := lower_nary_rest lw op rest k g in
           let '((s1, e1), g2) := lw a1 krest g1 in
-          ((s1, match endrest with Some x => x | None => e1 end), g2)
+          ((s1, or_else endrest e1), g2)
       end
   | ESeq es =>
       let '((ks, en), g1) := lower_chain lw es k g in
       let '(st, g2) := add_block g1 (BSimple [] ks) in
-      ((st, match en with Some x => x | None => st end), g2)
+      ((st, or_else en st), g2)
   | EIf cnd th el =>
       let '(en, g1) := add_block g (BSimple [] k) in
       let '((ths, _), g2) := lw th (Some en) g1 in
@@ -183,72 +277,34 @@ Fixpoint lower (o : copts) (c : lctx) (e : expr) (k : option id) (g : graph) {st
   | ECond arms =>
       let '(en, g1) := add_block g (BSimple [] k) in
       let '(errb, g2) := add_block g1 (BSimple [I O_err []] None) in
-      let '(st, g3) :=
-        (fix go (l : list (expr * expr)) (g : graph) : id * graph :=
-           match l with
-           | [] => (errb, g)
-           | (cnd, pred) :: t =>
-               let '(fls, g1) := go t g in
-               let '((ps, _), g2) := lw pred (Some en) g1 in
-               let '(br, g3) := add_block g2 (BCond [] (Some ps) (Some fls)) in
-               let '((cs, _), g4) := lw cnd (Some br) g3 in
-               (cs, g4)
-           end) arms g2 in
+      let '(st, g3) := lower_cond_arms lw arms en errb g2 in
       ((st, en), g3)
   | EWhile cnd body =>
       let '(en, g1) := add_block g (BSimple [] k) in
       let '(br, g2) := reserve g1 in
-      let '((cs, _), g3) := lower o (mkL (l_sub_ret c) (Some en) (Some None)) cnd (Some br) g2 in
-      let '((ds, _), g4) := lower o (mkL (l_sub_ret c) (Some en) (Some (Some cs))) body (Some cs) g3 in
+      let '((cs, _), g3) := lower o (mkL (l_sub_ret c) (Some en) None) cnd (Some br) g2 in
+      let '((ds, _), g4) := lower o (mkL (l_sub_ret c) (Some en) (Some cs)) body (Some cs) g3 in
       ((cs, en), define g4 br (BCond [] (Some ds) (Some en)))
   | EFor ini cnd stp body =>
       let '(en, g1) := add_block g (BSimple [] k) in
       let '(br, g2) := reserve g1 in
-      let inner := mkL (l_sub_ret c) (Some en) (Some None) in
+      let inner := mkL (l_sub_ret c) (Some en) None in
       let '((cs, _), g3) := lower o inner cnd (Some br) g2 in
       let '((ss, _), g4) := lower o inner stp (Some cs) g3 in
-      let '((ds, _), g5) := lower o (mkL (l_sub_ret c) (Some en) (Some (Some ss))) body (Some ss) g4 in
+      let '((ds, _), g5) := lower o (mkL (l_sub_ret c) (Some en) (Some ss)) body (Some ss) g4 in
       let '((is_, _), g6) := lower o inner ini (Some cs) g5 in
       ((is_, en), define g6 br (BCond [] (Some ds) (Some en)))
   | EBreak =>
       let '(b, g1) := add_block g (BSimple [] (l_brk c)) in ((b, b), g1)
   | EContinue =>
-      let '(b, g1) := add_block g (BSimple [] (match l_cont c with Some t => t | None => None end)) in ((b, b), g1)
+      let '(b, g1) := add_block g (BSimple [] (l_cont c)) in ((b, b), g1)
   | EAssert conds comment =>
-      let single (cnd : expr) (k : option id) (g : graph) : (id * id) * graph :=
-        if N.leb 3 (o_version o) then
-          let '(opb, g1) := add_block g (BSimple [I O_assert_ []] k) in
-          let '(kc, g2) :=
-            match comment with
-            | Some lines =>
-                (* Comment(text) = Seq(CommentExpr...) lowered as a second FromOp argument *)
-                let '(ks, g') := lower_comment_lines lines (Some opb) g1 in
-                let '(st, g'') := add_block g' (BSimple [] ks) in (Some st, g'')
-            | None => (Some opb, g1)
-            end in
-          let '((cs, _), g3) := lw cnd kc g2 in
-          ((cs, opb), g3)
-        else
-          let '(en, g1) := add_block g (BSimple [] k) in
-          let '(errb, g2) := add_block g1 (BSimple [I O_err []] None) in
-          let '(br, g3) := add_block g2 (BCond [] (Some en) (Some errb)) in
-          let '((cs, _), g4) := lw cnd (Some br) g3 in
-          ((cs, en), g4) in
       match conds with
-      | [cnd] => single cnd k g
+      | [cnd] => lower_assert1 lw (o_version o) comment cnd k g
       | _ =>
-          (* Seq of Assert(c, comment) for each c in conds *)
-          let '((ks, en), g1) :=
-            (fix go (l : list expr) (k : option id) (g : graph) : (option id * option id) * graph :=
-               match l with
-               | [] => ((k, None), g)
-               | cnd :: t =>
-                   let '((kt, endt), g1) := go t k g in
-                   let '((s, en), g2) := single cnd kt g1 in
-                   ((Some s, match endt with Some x => Some x | None => Some en end), g2)
-               end) conds k g in
+          let '((ks, en), g1) := lower_asserts lw (o_version o) comment conds k g in
           let '(st, g2) := add_block g1 (BSimple [] ks) in
-          ((st, match en with Some x => x | None => st end), g2)
+          ((st, or_else en st), g2)
       end
   | EReturn v =>
       let op := match l_sub_ret c with Some _ => O_retsub | None => O_return_ end in
@@ -261,52 +317,17 @@ Fixpoint lower (o : copts) (c : lctx) (e : expr) (k : option id) (g : graph) {st
       let '(opb, g1) := add_block g (BSimple [I O_return_ []] k) in
       let '((s, _), g2) := lw v (Some opb) g1 in ((s, opb), g2)
   | EMulti op imms args outs =>
-      (* stores are emitted for reversed(outs): the first store after the op is for the LAST slot;
-         the chain ends with the store of outs[0] *)
-      let '(kst, lastst, g1) :=
-        (fix go (l : list N) (kk : option id) (first : option id) (g : graph) : option id * option id * graph :=
-           match l with
-           | [] => (kk, first, g)
-           | s :: t =>
-               let '(b, g1) := add_block g (BSimple [I O_store [ASlot s]] kk) in
-               go t (Some b) (match first with Some x => Some x | None => Some b end) g1
-           end) outs k None g in
+      let '(kst, lastst, g1) := lower_stores outs k None g in
       let '(opb, g2) := add_block g1 (BSimple [I op imms] kst) in
       let '((s, _), g3) := lower_chain lw args (Some opb) g2 in
-      ((match s with Some x => x | None => opb end, match lastst with Some x => x | None => opb end), g3)
+      ((or_else s opb, or_else lastst opb), g3)
   | ECall sub _ args =>
       let '(opb, g1) := add_block g (BSimple [I O_callsub [ASub sub]] k) in
       let '((s, _), g2) := lower_chain lw args (Some opb) g1 in
-      ((match s with Some x => x | None => opb end, opb), g2)
+      ((or_else s opb, opb), g2)
   | EWide ns ds =>
-      (* multiplyFactors: empty start block; (1 factor) [int 0] then the factor; (>=2) f0 f1 [mulw] (fX [8 ops])* *)
-      let mf (fs : list expr) (k : option id) (g : graph) : (id * id) * graph :=
-        match fs with
-        | [] => let '(b, g1) := add_block g (BSimple [] k) in ((b, b), g1)
-        | [f0] =>
-            let '((s0, e0), g1) := lw f0 k g in
-            let '(hw, g2) := add_block g1 (BSimple [I1 O_int 0] (Some s0)) in
-            let '(st, g3) := add_block g2 (BSimple [] (Some hw)) in
-            ((st, e0), g3)
-        | f0 :: f1 :: rest =>
-            let '((krest, endrest), g1) :=
-              (fix go (l : list expr) (k : option id) (g : graph) : (option id * option id) * graph :=
-                 match l with
-                 | [] => ((k, None), g)
-                 | f :: t =>
-                     let '((kt, endt), g1) := go t k g in
-                     let '(mb, g2) := add_block g1 (BSimple mul_step_ops kt) in
-                     let '((s, _), g3) := lw f (Some mb) g2 in
-                     ((Some s, match endt with Some x => Some x | None => Some mb end), g3)
-                 end) rest k g in
-            let '(m2, g2) := add_block g1 (BSimple [I0 O_mulw] krest) in
-            let '((s1, _), g3) := lw f1 (Some m2) g2 in
-            let '((s0, _), g4) := lw f0 (Some s1) g3 in
-            let '(st, g5) := add_block g4 (BSimple [] (Some s0)) in
-            ((st, match endrest with Some x => x | None => m2 end), g5)
-        end in
       let '(cb, g1) := add_block g (BSimple combine_ops k) in
-      let '((dstart, _), g2) := mf ds (Some cb) g1 in
-      let '((nstart, _), g3) := mf ns (Some dstart) g2 in
+      let '((dstart, _), g2) := lower_factors lw ds (Some cb) g1 in
+      let '((nstart, _), g3) := lower_factors lw ns (Some dstart) g2 in
       ((nstart, cb), g3)
   end.
